@@ -2,51 +2,26 @@ package main
 
 import (
 	"bytes"
+	"context"
 	"fmt"
 
 	"github.com/hedzr/logg/slog"
 )
 
-type reent struct {
-	l slog.Logger
-	s string
-}
-
-func (r reent) String() string {
-	r.l.Info("inner record", "ik", 1, slog.NewGroupedAttr("ig", slog.Int("m", 1)))
-	return r.s
-}
-
-type plain struct{ s string }
-
-func (r plain) String() string { return r.s }
-
 func main() {
-	slog.SetFlags(slog.LstdFlags | slog.LnoInterrupt)
-	for _, f := range []string{"json", "logfmt", "color"} {
-		for _, same := range []bool{false, true} {
-			var b1, b2, bi bytes.Buffer
-			mk := func(n string, b *bytes.Buffer) slog.Logger {
-				l := slog.New(n).SetWriter(b).SetErrorWriter(b).SetLevel(slog.AlwaysLevel)
-				switch f {
-				case "json":
-					l.SetJSONMode(true)
-				case "logfmt":
-					l.SetColorMode(false)
-				default:
-					l.SetColorMode(true)
-				}
-				return l
-			}
-			l1 := mk("o", &b1)
-			l2 := mk("o", &b2)
-			in := mk("in", &bi)
-			if same {
-				in = l1
-			}
-			l2.Info("outer", "a", 1, "v", plain{"val"}, slog.NewGroupedAttr("g", slog.Int("m", 1), slog.Any("w", plain{"val"})), "z", 2)
-			l1.Info("outer", "a", 1, "v", reent{in, "val"}, slog.NewGroupedAttr("g", slog.Int("m", 1), slog.Any("w", reent{in, "val"})), "z", 2)
-			fmt.Printf("%s same=%v\n ref %q\n got %q\n", f, same, b2.String(), b1.String())
+	snap := slog.VerifSnapshot()
+	for i := 0; i < 2; i++ {
+		slog.VerifRestore(snap)
+		slog.SetFlags(slog.LstdFlags | slog.LnoInterrupt | slog.Lcaller)
+		var b bytes.Buffer
+		root := slog.VerifEntryOf(slog.New("root"))
+		l := root.New("probed").SetWriter(&b).SetJSONMode(true).SetLevel(slog.AlwaysLevel)
+		if i == 1 {
+			restore := slog.SaveFlagsAndMod(slog.Lcaller, slog.Lprivacypath|slog.Lprivacypathregexp)
+			l.LogAttrs(context.Background(), slog.ErrorLevel, "scoped")
+			restore()
 		}
+		l.LogAttrs(context.Background(), slog.ErrorLevel, "after")
+		fmt.Print(b.String())
 	}
 }
